@@ -22,6 +22,10 @@ func c05World(r *rand.Rand) (files map[string]string, element, food string, dept
 	names := gen.Names(r, nrec+8, gen.NameOpts{Slash: true, MaxLen: 6})
 	recipes, basics, unknown := names[:nrec], names[nrec:nrec+4], names[nrec+4:]
 	vals := []string{"1", "2", "1", "0.5"}
+	if r.Intn(2) == 0 {
+		// values whose sums depend on the order of the additions (float addition is not associative)
+		vals = []string{"0.1", "1", "-1.1", "0.2", "0.3", "-0.3", "0.001", "0.006", "0.008", "1e16", "-1e16", "1", "0.7", "-0.7"}
+	}
 	var book gen.Book
 	chainOnly := r.Intn(4) == 0 // the book is nothing but the chain: exactly `length` recipes
 	for _, rn := range recipes {
@@ -86,7 +90,7 @@ func c05Commands(element, food string) [][]string {
 }
 
 func runC05(c *core.Ctx) {
-	c.SetRule("cases: inputs built to expose map order (ties in quantities and element amounts, >= 3 unresolved foods, up to 14 recipes, many elements/siblings, a reference chain of N-1..N+1 links with --maxdepth N declared in shuffled order, in a quarter of the inputs as the only content of the book) x 31 command shapes (every command and sub-command), with and without the depth flag; each case repeated R1 times in one process (fresh map seeds per run) and in R2 fresh processes (thorough: also the go1.26.8 build, swiss-table maps). Oracle: all repetitions byte-identical in stdout, exit status and error text. Non-trivial = case whose report has >= 2 rows; distinct = hash(files, argv).")
+	c.SetRule("cases: inputs built to expose map order (ties in quantities and element amounts, in half of the inputs decimal values whose floating-point sum depends on the order of the additions, >= 3 unresolved foods, up to 14 recipes, many elements/siblings, a reference chain of N-1..N+1 links with --maxdepth N declared in shuffled order, in a quarter of the inputs as the only content of the book) x 31 command shapes (every command and sub-command), with and without the depth flag; each case repeated R1 times in one process (fresh map seeds per run) and in R2 fresh processes (thorough: also the go1.26.8 build, swiss-table maps). Oracle: all repetitions byte-identical in stdout, exit status and error text. Non-trivial = case whose report has >= 2 rows; distinct = hash(files, argv).")
 	c.Assume("iteration order is sampled, not enumerated: with 3 tied keys one repetition repeats the first order with probability <= 6/8, so 40 repetitions miss a dependence with probability < 1e-5 per input")
 	pool := newPool(c, c.Procs)
 	if pool == nil {
